@@ -85,7 +85,8 @@ Codes == {0, 1, 7, 255}
 VARIABLES tests, keep, strip, stream, exec
 vars == <<tests, keep, strip, stream, exec>>
 Tri == {"unset", "true", "false"}
-T(p, e, c) == [payload |-> p, err |-> e, code |-> c]
+\* tail = "backslash": the expression, as written in the document, ends in a dangling backslash (harmless for the shell)
+T(p, e, c) == [payload |-> p, err |-> e, code |-> c, tail |-> "none"]
 Short == {<<>>, <<"a">>, <<"LF">>, <<"a", "LF">>}
 Init == /\ exec \in {"md", "cram"}
         /\ \/ \* A: one test case, stdout payloads under every keep_crlf / strip_ansi_escaping setting
@@ -94,6 +95,10 @@ Init == /\ exec \in {"md", "cram"}
            \/ \* B: both streams, every output_stream setting, every exit code
               /\ keep = "unset" /\ strip = "unset" /\ stream \in {"stdout", "stderr", "combined"}
               /\ \E p \in Short, e \in Short \cup {<<"a", "CR", "LF">>, <<"E", "LF">>}, c \in Codes : tests = <<T(p, e, c)>>
+           \/ \* D: the expression ends in a backslash (line continuation onto nothing)
+              /\ keep = "unset" /\ strip = "unset" /\ stream = "stdout"
+              /\ \E p \in {<<"a", "LF">>, <<"a">>}, p2 \in {<<>>, <<"a", "LF">>} :
+                    tests = <<[T(p, <<>>, 0) EXCEPT !.tail = "backslash"], T(p2, <<>>, 0)>>
            \/ \* C: two test cases (the first one possibly without final newline), exit codes per test case
               /\ keep = "unset" /\ strip = "unset" /\ stream \in {"stdout", "combined"}
               /\ \E p1 \in {<<"a">>, <<"a", "LF">>, <<>>, <<"a", "CR">>}, p2 \in {<<"a", "LF">>, <<"LF">>, <<>>}, c1 \in Codes, c2 \in {0, 255} :
